@@ -126,3 +126,14 @@ CHECKS['C14'] = dict(level='other',
         'quaternion equal documented as such) are listed.',
    technique='term-shape analysis (call chains and direction constants), decision tables over order relations, bit-level boolean equivalence with an equality-logic feasibility oracle')
 NOT_APPLICABLE.pop('C14', None)
+
+CHECKS['C08'] = dict(level='proof',
+   text='All 20 fully suffixed clip-space builders (ortho/frustum/perspective/perspectiveFov/infinitePerspective x RH/LH x NO/ZO): the result lanes, read as rational functions of the '
+        'parameters, send the eight view-volume corners to the clip-cube faces of the variant (x,y = -+w, near z = -w | 0, far or infinity z = +w, w = -+z_eye or 1) as polynomial identities modulo '
+        'inv(p)*p=1 and tan=sin/cos; perspective == symmetric frustum and perspectiveFov == perspective(aspect = w/h) as rational identities; every unsuffixed and half-suffixed builder, project, '
+        'unProject and lookAt has identical lane terms to the variant selected under each of the four GLM_FORCE_LEFT_HANDED x GLM_FORCE_DEPTH_ZERO_TO_ONE configurations; projectNO/ZO and '
+        'unProjectNO/ZO equal the viewport-map definition (inverse kept opaque, its argument proved to be proj*model).',
+   note='Valid for all parameter values for which the divisions are defined (the property\'s valid parameter sets). Not decided: float accuracy, behaviour for invalid parameters, '
+        'tweakedInfinitePerspective, and project(unProject(w)) == w with the inverse inlined (follows mathematically from C10 + the two viewport identities).',
+   technique='abstract interpretation of instantiated LLVM IR into rational normal forms; symbolic corner mapping; configuration differential by term identity')
+NOT_APPLICABLE.pop('C08', None)
